@@ -28,6 +28,11 @@ def ofNat : Nat → α
   | 0 => 0
   | n + 1 => ofNat n + 1
 
+/-- integer counts (the code computes them in floating point: they may be negative on inputs that are not trees) -/
+def ofInt : Int → α
+  | .ofNat n => ofNat n
+  | .negSucc n => -(ofNat (n + 1))
+
 def sumList (l : List α) : α := l.foldr (· + ·) 0
 
 /-- `epidemiology_to_birth_death(R, delta, s, r)`: (lambda, mu, psi) -/
@@ -101,9 +106,9 @@ def idxY (t : Nat → α) (m : Nat) (y : α) : Nat := min (countLT t (m + 1) y -
 def isRhoTip (r : Rates α) (t : Nat → α) (m : Nat) (y : α) : Bool :=
   decide (0 < countEq t (m + 1) y) && decide (0 < r.rho (idxY t m y))
 
-/-- `n_i` for the boundary `t_i`, `1 ≤ i ≤ m-1` -/
-def nCross (t : Nat → α) (i : Nat) (xs ys : List α) : Nat :=
-  (xs.filter fun x => x < t i).length + 1 - (ys.filter fun y => y ≤ t i).length
+/-- `n_i` for the boundary `t_i`, `1 ≤ i ≤ m-1`: `#{x < t_i} - #{y ≤ t_i} + 1` (an integer, as in the code) -/
+def nCross (t : Nat → α) (i : Nat) (xs ys : List α) : Int :=
+  ((xs.filter fun x => x < t i).length : Int) - ((ys.filter fun y => y ≤ t i).length : Int) + 1
 
 /-- `N_i`: tips sampled exactly at `t_{i+1}` -/
 def nAt (t : Nat → α) (i : Nat) (ys : List α) : Nat := (ys.filter fun y => y == t (i + 1)).length
@@ -134,7 +139,7 @@ def logProb (r : Rates α) (rem : Option (Nat → α)) (t : Nat → α) (m : Nat
     else 0
   let crossing := sumList ((List.range (m - 1)).map fun k =>
     let i := k + 1
-    ofNat (nCross t i xs ys) * (logq (A i) (B i) (t i) (t (i + 1)) + Trans.log (1 - r.rho k)))
+    ofInt (nCross t i xs ys) * (logq (A i) (B i) (t i) (t (i + 1)) + Trans.log (1 - r.rho k)))
   let rhoTerm := sumList ((List.range m).map fun i =>
     let n := nAt t i ys
     ofNat n * Trans.log (if 0 < n ∧ 0 < r.rho i then r.rho i else 1))
@@ -149,6 +154,23 @@ def logProb (r : Rates α) (rem : Option (Nat → α)) (t : Nat → α) (m : Nat
   surv + births + serial + crossing + rhoTerm + remTerm
 
 end Order
+
+/-! ## refining the epoch grid -/
+
+/-- epoch times with a boundary `s` inserted after index `i` -/
+def cutTimes (t : Nat → α) (i : Nat) (s : α) : Nat → α :=
+  fun k => if k ≤ i then t k else if k = i + 1 then s else t (k - 1)
+
+/-- a per-epoch array with entry `i` duplicated -/
+def dupAt (f : Nat → α) (i : Nat) : Nat → α := fun k => if k ≤ i then f k else f (k - 1)
+
+/-- the rates of the refined grid: epoch `i` cut in two sub-epochs with its rates, no sampling event at the cut,
+the sampling event of epoch `i` kept at its end -/
+def cutRates (r : Rates α) (i : Nat) : Rates α where
+  lam := dupAt r.lam i
+  mu := dupAt r.mu i
+  psi := dupAt r.psi i
+  rho := fun k => if k < i then r.rho k else if k = i then 0 else r.rho (k - 1)
 
 /-! ## a tree with node times, for the lineage-count theorem -/
 
